@@ -394,7 +394,7 @@ theorem C05_decision_uses_last_report (n : Nat) (ops : List Op) :
   rw [hu] at this
   exact this
 
-/-- A report of the server requests a management cycle (manager.py:1193-1202). -/
+/-- A report of the server requests a management cycle (manager.py:1211-1221). -/
 theorem C05_report_requests_cycle (s : Sched) (u : Nat) (st : UStatus) (p : Bool) (r : Option UStatus) :
     (step s (.report u st p)).cyclePending = true ∧ (step s (.reply u r)).cyclePending = true := by
   cases r <;> exact ⟨rfl, rfl⟩
